@@ -691,7 +691,7 @@ func (S *sidesInfo) itemProv(item ssa.Value, want side, use ssa.Instruction, dep
 	}
 	item = ir.ResolveCell(item)
 	if call, sl := S.popOf(item); call != nil {
-		if sl.cur != want {
+		if want != sdNone && sl.cur != want {
 			return lpVerdict{why: fmt.Sprintf("the item was taken from %s, the %s stack", sl.name, sl.cur), short: fmt.Sprintf("link of the item from the %s stack", sl.cur)}
 		}
 		if call.Parent() == use.Parent() && !ir.Before(call, use) {
@@ -885,10 +885,27 @@ func linkProvByRef(c *Ctx, S *sidesInfo, call *ssa.Call, addr *ssa.FieldAddr, sl
 				continue
 			}
 			item, isLink := S.itemLink(x.Val)
+			var v lpVerdict
 			if !isLink {
-				c.Violation(callee, P.InstrPos(x), fmt.Sprintf("%s link (%s, by reference) <- %s", kind, sl.field.Name(), sdDescShape(x.Val)),
-					fmt.Sprintf("%s writes %s through the reference to %s: not the link of a popped item", callee.Name(), sdDesc(x.Val), sl.name))
-				return
+				// the helper may receive the link itself as a parameter
+				li := sdParamIndex(callee, x.Val)
+				if li < 0 || li >= len(call.Call.Args) {
+					c.Violation(callee, P.InstrPos(x), fmt.Sprintf("%s link (%s, by reference) <- %s", kind, sl.field.Name(), sdDescShape(x.Val)),
+						fmt.Sprintf("%s writes %s through the reference to %s: not the link of a popped item", callee.Name(), sdDesc(x.Val), sl.name))
+					return
+				}
+				v = S.linkValProv(call.Call.Args[li], want, call, 1)
+				n++
+				switch {
+				case v.ok:
+					c.OK(pos, fmt.Sprintf("%s written by %s through a reference, link argument %s", sl.name, callee.Name(), sdDesc(call.Call.Args[li])), v.why, false)
+				case v.und:
+					c.Undecided(fn, pos, fmt.Sprintf("%s link (%s, by reference) <- %s", kind, sl.field.Name(), v.short), v.why)
+				default:
+					c.Violation(fn, pos, fmt.Sprintf("%s link (%s, by reference) <- %s", kind, sl.field.Name(), v.short),
+						fmt.Sprintf("the link reported as %s must be the link of the item popped from the %s stack; %s", kind, want, v.why))
+				}
+				continue
 			}
 			q, isParam := item.(*ssa.Parameter)
 			qi := -1
@@ -903,7 +920,7 @@ func linkProvByRef(c *Ctx, S *sidesInfo, call *ssa.Call, addr *ssa.FieldAddr, sl
 				und("the item whose link the helper writes is not one of its parameters")
 				return
 			}
-			v := S.itemProv(call.Call.Args[qi], want, call, 1)
+			v = S.itemProv(call.Call.Args[qi], want, call, 1)
 			n++
 			switch {
 			case v.ok:
@@ -3132,15 +3149,10 @@ func runLOADPROV(c *Ctx) {
 			pos := P.InstrPos(ci)
 			what := fmt.Sprintf("%s(%s) in %s", cal.Name(), sdDesc(link), ir.FuncName(fn))
 			var v lpVerdict
-			switch sd := S.sideOf(link); {
-			case sd.single():
-				v = S.linkValProv(link, sd, ci, 0)
-			default:
-				v = S.linkValProv(link, sdOld, ci, 0)
-				if !v.ok {
-					v = S.linkValProv(link, sdNew, ci, 0)
-				}
-			}
+			// the link of an item popped from either stack (which side a link
+			// belongs to is the business of SIDES; a helper shared by the two
+			// sides is decided call site by call site)
+			v = S.linkValProv(link, sdNone, ci, 0)
 			switch {
 			case v.ok:
 				c.OK(pos, what, v.why, false)
@@ -3382,11 +3394,11 @@ func runKEYEQ(c *Ctx) {
 					c.Violation(fn, pos, "DeepEqual on a whole "+whole,
 						fmt.Sprintf("%s compares %s, a whole %s (key included), with reflect.DeepEqual: keys that are equal under the tree's key order but not deeply equal make an unchanged entry look changed; only the two values are to be compared", fn.Name(), sdDesc(x), whole))
 					bad = true
-				case has(fields, "Key"):
+				case has(fields, "Key") || has(fields, S.entryKeyName):
 					c.Violation(fn, pos, "DeepEqual on a key",
 						fmt.Sprintf("%s compares the key %s with reflect.DeepEqual; key equality is decided by the tree's key order only", fn.Name(), sdDesc(x)))
 					bad = true
-				case has(fields, "Value"):
+				case has(fields, "Value") || has(fields, S.entryValueName):
 				default:
 					c.Undecided(fn, pos, "DeepEqual on something that is not a Value", fmt.Sprintf("%s is compared across the sides with reflect.DeepEqual; the rule cannot tell that it is an entry's value", sdDesc(x)))
 					bad = true
@@ -3594,7 +3606,7 @@ func runENTRYKEY(c *Ctx) {
 				sl, _ := S.storeRoot(st.Addr)
 				switch {
 				case sl == keyCell && sl != nil:
-					if sdPathHasField(st.Val, "Key") {
+					if sdPathHasField(st.Val, "Key") || sdPathHasField(st.Val, S.entryKeyName) {
 						keys = append(keys, est{st, sdAccessRoot(st.Val)})
 					}
 				case sl != nil && valueCells[sl]:
